@@ -116,6 +116,10 @@ func (s *Sim) NewTCPClient(inst *Instance, name string) *Client {
 	s.mu.Unlock()
 	inst.conns++
 	started := make(chan struct{})
+	// the connection's registration (ACL table, connection table) is not part of any command: it runs through
+	wasPass := s.passAll.Load()
+	s.passAll.Store(true)
+	defer s.passAll.Store(wasPass)
 	go func() {
 		g := goid()
 		s.mu.Lock()
